@@ -426,7 +426,7 @@ def one_case(ctx, kind, spec, rng, kw):
 
 def monitors(ctx, widen=False):
     rng = ctx.rng
-    n = (24 if ctx.quick else 330)
+    n = (16 if ctx.quick else 330)
     if widen:
         n *= 3
     for i in range(n):
